@@ -147,14 +147,14 @@ pub fn node_op(node: &Node, tower: Option<&Tower>, op: &Op) -> bool {
                 mine_one(node, tower, *take, &[]);
             }
         }
-        Op::Reorg { depth, extra, first, later_at, later } => {
+        Op::Reorg { depth, extra, first, later_at, later, evict } => {
             let depth = (*depth as usize).min(node.lock().active.len().saturating_sub(3));
             let n_new = depth + *extra as usize;
             let mut contents: Vec<Vec<Transaction>> = vec![vec![]; n_new];
             contents[0] = first.iter().map(|r| tx_of(*r)).collect();
             let at = (1 + *later_at as usize).min(n_new - 1);
             contents[at].extend(later.iter().map(|r| tx_of(*r)));
-            node.lock().reorg(depth, &contents);
+            node.lock().reorg(depth, &contents, *evict);
         }
         Op::SetPolicy { tx, code } => {
             let txid = tx_of(*tx).compute_txid();
